@@ -12,6 +12,9 @@
         collapse_depth (min z) (max z) (rr b) (rt b)
         graft          (tip SEL) (graft T)        insert (groups ((SEL ...) ...))      merge (t2 T)
         nni            (k n) (undo b)             k-th proposal (modulo their number), Apply (then Undo)
+        nni_hold       (k n)                      Apply of the k-th proposal, the rearrangement object is KEPT
+        nni_release                               Undo of the kept rearrangement (nothing when none is alive);
+                                                  the object stays alive across sort / rotate steps only
         rename         (tip SEL) (to "new")       Tree.Rename({old: new})
         subtree        (sel inner|node) (i n)
       SEL = (tip k)    the k-th tip of Tips() (modulo)     | (lit "name")
@@ -46,7 +49,7 @@
     correspondence only. *)
 From Coq Require Import String ZArith QArith Bool Arith List.
 From GT Require Import Base.Sexp Base.UTree Base.Codec Spec.NewickSpec Model.Reroot Model.Rand
-     Model.Newick Model.NewickNum Model.History Judge.Common.
+     Model.Newick Model.NewickNum Model.History Model.HistoryHold Judge.Common.
 From GT Require Model.Collapse Model.NNI.
 Import ListNotations.
 Local Close Scope Q_scope.
@@ -227,6 +230,26 @@ Definition unmodelled (name : string) (t : utree) : bool :=
   (* Model/Collapse.v: subtree sizes of a tree whose root is itself a tip *)
   (String.eqb name "collapse_depth" && Nat.ltb (degree t) 2).
 
+(** oracle: a successful edit does not leave a tip as the root (Tree.Newick() then writes no
+    parenthesis and the text cannot be read back).  Not demanded of: a tree that was rooted at a
+    tip already; SubTree (the copy of a single-child node's subtree has a single-child root by
+    definition); UnRoot of the two-tip tree (there is no unrooted two-tip tree). *)
+Definition two_tip (t : utree) : bool := rooted t && forallb (fun p => is_tip (snd p)) (kids t).
+Definition new_tip_root (name : string) (t g : utree) : option string :=
+  if is_tip g && negb (Nat.eqb (degree t) 1) && negb (String.eqb name "subtree") &&
+     negb (String.eqb name "unroot" && two_tip t)
+  then Some "the edit left a tip as the root of the tree (its Newick text has no parenthesis and cannot be read back)"
+  else None.
+
+(** the oracle alone on a state the model does not predict *)
+Definition oracle_only (name : string) (t : utree) (so : sexp) : option string :=
+  match get_tree "tree" so, get_string "nw" so with
+  | Some g, Some nw =>
+    first_some [structure_ok so g; new_tip_root name t g;
+                match text_ok g nw with inr m => Some m | inl _ => None end]
+  | _, _ => None
+  end.
+
 (** * the fold over the steps *)
 Definition nw_tag (nin nstates : nat) : string :=
   if Nat.eqb nin nstates then ":nw-all" else if Nat.eqb nin 0 then ":nw-none" else ":nw-part".
@@ -256,7 +279,11 @@ Definition finish (o : sexp) (origs : list utree) (nok nin nstates : nat) (tag :
 
 Definition b2n (b : bool) : nat := if b then 1 else 0.
 
-Fixpoint walk (o : sexp) (i : nat) (t : utree) (origs : list utree) (nin nstates : nat)
+Definition keeps_handle (name : string) : bool :=
+  String.eqb name "sort" || String.eqb name "rotate" || String.eqb name "nni_release".
+
+(** [held]: a rearrangement object is alive and [t] carries the markers of Model/HistoryHold.v *)
+Fixpoint walk (o : sexp) (i : nat) (t : utree) (held : bool) (origs : list utree) (nin nstates : nat)
          (ops steps : list sexp) {struct ops} : verdict :=
   match ops with
   | [] => match steps with
@@ -270,6 +297,8 @@ Fixpoint walk (o : sexp) (i : nat) (t : utree) (origs : list utree) (nin nstates
       match get_string "op" c, get_bool "reinit" c with
       | Some name, Some re =>
         let pre := "step " ++ string_of_nat i ++ " (" ++ name ++ "): " in
+        let t := if held && negb (keeps_handle name) then strip_marks t else t in
+        let held := held && keeps_handle name in
         let lenient := String.eqb name "prune" && negb (no_single t) in
         let stopped (tag : string) : verdict :=
             match steps' with
@@ -291,7 +320,7 @@ Fixpoint walk (o : sexp) (i : nat) (t : utree) (origs : list utree) (nin nstates
               if refused then stopped ("stop@" ++ name ++ ":unmodelled")
               else match check_state_unmodelled (pre ++ "(outside the model of this operation) ") so with
                    | inl v => v
-                   | inr (g, b) => walk o (S i) g origs (nin + b2n b) (nstates + 1) ops' steps'
+                   | inr (g, b) => walk o (S i) g false origs (nin + b2n b) (nstates + 1) ops' steps'
                    end
             else
             match (if re then reinit t else Ok tt) with
@@ -302,14 +331,32 @@ Fixpoint walk (o : sexp) (i : nat) (t : utree) (origs : list utree) (nin nstates
               if refused && String.eqb gstage "reinit"
               then VCorr (pre ++ "the implementation refuses ReinitIndexes: " ++ gerr)
               else
-              match dec_op name t c so with
+              let model : option (res utree * bool * option (res utree)) :=
+                  if String.eqb name "nni_hold" then
+                    k <- get_nat "k" c ;;
+                    Some (match hold_apply k t with
+                          | Ok (Some tm) => (Ok tm, true, None)
+                          | Ok None => (Ok t, false, None)
+                          | Err m => (Err m, false, None)
+                          end)
+                  else if String.eqb name "nni_release" then
+                    Some (if held then (hold_undo t, false, None) else (Ok t, false, None))
+                  else
+                    op <- dec_op name t c so ;;
+                    Some (run_op op t, held,
+                          match op with ONni k true => Some (nni_applied k t) | _ => None end) in
+              match model with
               | None => VBad (pre ++ "undecodable operation")
-              | Some op =>
-                match run_op op t with
+              | Some (mres, held', midm) =>
+                match mres with
                 | Err m =>
                   if refused then stopped ("stop@" ++ name)
-                  else VCorr (pre ++ "the model refuses (" ++ m ++ "), the implementation succeeds")
-                | Ok t' =>
+                  else match (if lenient then None else oracle_only name t so) with
+                       | Some msg => VOracle (pre ++ msg ++ " [the model refuses: " ++ m ++ "]")
+                       | None => VCorr (pre ++ "the model refuses (" ++ m ++ "), the implementation succeeds")
+                       end
+                | Ok tm' =>
+                  let t' := if held' then strip_marks tm' else tm' in
                   if refused then VCorr (pre ++ "the implementation refuses: " ++ gerr ++ " / model: " ++ show_utree t')
                   else
                   (* the tree the copy was taken from *)
@@ -328,9 +375,9 @@ Fixpoint walk (o : sexp) (i : nat) (t : utree) (origs : list utree) (nin nstates
                       else inr (0, 0) in
                   (* the tree between Apply and Undo *)
                   let chk_mid : verdict + (nat * nat) :=
-                      match op with
-                      | ONni k true =>
-                        match get "mid" so, nni_applied k t with
+                      match midm with
+                      | Some mm =>
+                        match get "mid" so, mm with
                         | Some mo, Ok t1 =>
                           match check_state (pre ++ "between Apply and Undo: ") false t1 mo with
                           | inl v => inl v
@@ -339,16 +386,20 @@ Fixpoint walk (o : sexp) (i : nat) (t : utree) (origs : list utree) (nin nstates
                         | None, _ => inl (VBad (pre ++ "no mid in the step"))
                         | _, Err m => inl (VBad (pre ++ m))
                         end
-                      | _ => inr (0, 0)
+                      | None => inr (0, 0)
                       end in
                   match chk_orig, chk_mid with
                   | inl v, _ => v
                   | _, inl v => v
                   | inr (a1, b1), inr (a2, b2) =>
-                    match check_state pre lenient t' so with
-                    | inl v => v
-                    | inr b =>
-                      walk o (S i) t' (if is_copy then origs ++ [t] else origs)
+                    match (if lenient then None
+                           else match get_tree "tree" so with Some g => new_tip_root name t g | None => None end),
+                          check_state pre lenient t' so with
+                    | _, inl (VOracle m) => VOracle m
+                    | Some msg, _ => VOracle (pre ++ msg)
+                    | None, inl v => v
+                    | None, inr b =>
+                      walk o (S i) tm' held' (if is_copy then origs ++ [t] else origs)
                            (nin + a1 + a2 + b2n b) (nstates + b1 + b2 + 1) ops' steps'
                     end
                   end
@@ -375,7 +426,7 @@ Definition judge (c o : sexp) : verdict :=
            oracle holds of it (enumerations, text) *)
         match check_state "start: " false t s0 with
         | inl v => v
-        | inr b => walk o 0 t [] (b2n b) 1 ops steps
+        | inr b => walk o 0 t false [] (b2n b) 1 ops steps
         end
       end
     | _, _, _ => VBad "undecodable case or observation"
